@@ -1,6 +1,6 @@
 """C12 — a doubly-linked list equals a reference sequence in both directions"""
 import vlib
-from areas import dlist
+from areas import dlist, lists_tie
 
 
 def in_domain(script):
@@ -15,6 +15,7 @@ def in_domain(script):
 def run(chk):
     c_exe, m_exe = vlib.prepare_area(chk, dlist, leanchecker=True)
     vlib.translator_tie(chk, "dlist", dlist.TIE_MODULE, dlist.TIE_THEOREMS)
+    lists_tie.tie2_run(chk, "dlist")
     if c_exe:
         vlib.run_scripts(chk, dlist, c_exe, m_exe, dlist.corpus(), dlist.oracle)
         if chk.tier == "quick":
